@@ -342,3 +342,36 @@ fn probe_compress_cursor_equivalence_histories() {
         }
     }
 }
+
+/// source returning at most `k` bytes per read, seekable
+struct TrickleSeek<'a> { c: Cursor<&'a [u8]>, k: usize }
+impl Read for TrickleSeek<'_> {
+    fn read(&mut self, b: &mut [u8]) -> std::io::Result<usize> { let n = b.len().min(self.k); self.c.read(&mut b[..n]) }
+}
+impl Seek for TrickleSeek<'_> {
+    fn seek(&mut self, p: SeekFrom) -> std::io::Result<u64> { self.c.seek(p) }
+}
+fn pnoise_c(n: usize, mut x: u32) -> Vec<u8> { (0..n).map(|_| { x ^= x << 13; x ^= x >> 17; x ^= x << 5; (x >> 11) as u8 }).collect() }
+
+/// C11/C13/C12 (cmp.read.keeps_position_and_decompressor_in_step): reading sequentially ACROSS a 4 MiB block boundary gives the
+/// plaintext also when the layer below delivers fewer bytes than asked (the decompressor may leave the last byte(s) of a block unread:
+/// the next block must be located from the size table, not from where the inner reader happens to stand)
+#[test]
+fn probe_compress_sequential_read_over_short_read_source() {
+    let n = U + 70_000;
+    let plain = pnoise_c(n, 0x2545_F491);
+    let s = {
+        let mut w = Box::new(CompressionLayerWriter::new(Box::new(RawLayerWriter::new(Vec::new())), &CompressionConfig::default()));
+        w.write_all(&plain).unwrap();
+        w.finalize().unwrap();
+        w.into_raw()
+    };
+    for k in [1usize, 2, 3, 7, 4096, 131072] {
+        let mut r = CompressionLayerReader::new(Box::new(RawLayerReader::new(TrickleSeek { c: Cursor::new(&s[..]), k }))).unwrap();
+        r.initialize().unwrap();
+        r.seek(SeekFrom::Start(U as u64 - 5000)).unwrap();
+        let mut got = vec![0u8; 5000 + 70_000];
+        r.read_exact(&mut got).unwrap_or_else(|e| panic!("source returning {k} bytes per read: reading across the block boundary failed: {e}"));
+        assert!(got[..] == plain[U - 5000..], "source returning {k} bytes per read: bytes across the block boundary differ");
+    }
+}
